@@ -3,6 +3,7 @@ module github.com/buzzfeed/sso/verifharness
 go 1.14
 
 require (
+	github.com/benbjohnson/clock v0.0.0-20161215174838-7dc76406b6d3
 	github.com/buzzfeed/sso v0.0.0
 	github.com/sirupsen/logrus v1.4.2
 )
